@@ -8,6 +8,7 @@ import Driver.OpsModes
 import Driver.OpsCfg
 import Driver.OpsBf2
 import Driver.OpsEc
+import Driver.OpsRw
 /-!
 Line-protocol driver of the executable model: one operation per input line,
 one canonical result line per operation.
@@ -44,7 +45,7 @@ def dispatch (line : String) : String :=
     | "crcstep" => opCrcStep args
     | "crcrow" => opCrcRow args
     | _ =>
-      match (cryptoOps ++ bf3Ops ++ textOps ++ bec2Ops ++ modeOps ++ cfgOps ++ bf2Ops ++ ecOps).find? (·.1 == op) with
+      match (cryptoOps ++ bf3Ops ++ textOps ++ bec2Ops ++ modeOps ++ cfgOps ++ bf2Ops ++ ecOps ++ rwOps).find? (·.1 == op) with
       | some (_, f) => f args
       | none => "bad-op"
 
